@@ -758,7 +758,8 @@ impl Net {
             thread_number: NonZeroUsize::new(1).expect("nz"),
             backend_conn_num: NonZeroUsize::new(backend_conn_num.max(1)).expect("nz"),
             active_redirection,
-            max_redirections: None,
+            // active redirection as shipped (conf/server-proxy.toml): at most 4 hops, forwarded commands wrapped in UMFORWARD
+            max_redirections: if active_redirection { NonZeroUsize::new(4) } else { None },
             default_redirection_address: None,
             backend_batch_strategy: BatchStrategy::Disabled,
             backend_flush_size: NonZeroUsize::new(1024).expect("nz"),
